@@ -184,7 +184,7 @@ func C03_ProofMagnitudes() {
 	maxVer := int64(1) << 34
 	maxSize := int64(1) << 20
 	if vTier() == "thorough" {
-		maxVer = int64(1) << 48
+		maxVer = int64(1) << 41
 	}
 	p := vNewPool(3, []int{1, 2, 1})
 	vl, vrt, vroot := vInt64("leftversion"), vInt64("rightversion"), vInt64("rootversion")
